@@ -55,6 +55,7 @@ def main():
         for r in radix:
             n *= r
         obs = []
+        objs = [] if job.get("eqsets") else None
         rep = set()
         want = set(rnd.sample(range(n), min(job.get("nsamples", 2), n)))
         samples = []
@@ -68,6 +69,8 @@ def main():
             sc = c.scores()
             for x in sc:
                 obs.append(tenth(x))
+            if objs is not None:
+                objs.append(c)
             if job.get("c09"):
                 sev = c.severities()
                 js = c.as_json()
@@ -87,6 +90,14 @@ def main():
                 idx[d] = 0
                 d -= 1
         row = {"t": t, "o": o, "obs": obs, "samples": samples}
+        if objs is not None:
+            # how many distinct objects the row holds according to ==/hash (a Python set), and according to the cleaned vectors
+            row["set_size"] = len(set(objs))
+            row["distinct_clean"] = len(set(x.clean_vector() for x in objs))
+            d_ = {}
+            for x in objs:
+                d_[x] = d_.get(x, 0) + 1
+            row["dict_size"] = len(d_)
         if job.get("c09"):
             row["rep"] = sorted(list(x) for x in rep)
         out_rows.append(row)
